@@ -250,12 +250,18 @@ func (e *scEnv) finish(closeServer bool) {
 
 // ---- A: the slow delivery of an aborted chunked transfer ----
 
-func scenarioSlowBdat(t *testing.T, when string) {
+func scenarioSlowBdat(t *testing.T, when string) { scenarioSlowBdatL(t, when, false) }
+
+func scenarioSlowBdatL(t *testing.T, when string, lmtp bool) {
 	be := newScBackend()
 	gate := make(chan struct{})
 	be.holdRet[0] = gate
-	e := scStart(t, be, false)
-	e.send("EHLO x\r\n")
+	e := scStart(t, be, lmtp)
+	if lmtp {
+		e.send("LHLO x\r\n")
+	} else {
+		e.send("EHLO x\r\n")
+	}
 	e.expect("250")
 	e.send("MAIL FROM:<a@b>\r\n")
 	e.expect("250")
@@ -306,6 +312,12 @@ func scenarioSlowBdat(t *testing.T, when string) {
 func TestScenarioSlowBdatBefore(t *testing.T) { scenarioSlowBdat(t, "before") }
 func TestScenarioSlowBdatDuring(t *testing.T) { scenarioSlowBdat(t, "during") }
 func TestScenarioSlowBdatAfter(t *testing.T)  { scenarioSlowBdat(t, "after") }
+
+// the same on an LMTP server whose backend has no LMTPSession (the delivery goroutine sets the statuses
+// of ITS OWN recipients while the command loop collects the recipients of the next transaction)
+func TestScenarioSlowBdatLMTPBefore(t *testing.T) { scenarioSlowBdatL(t, "before", true) }
+func TestScenarioSlowBdatLMTPDuring(t *testing.T) { scenarioSlowBdatL(t, "during", true) }
+func TestScenarioSlowBdatLMTPAfter(t *testing.T)  { scenarioSlowBdatL(t, "after", true) }
 
 // ---- B: Server.Close at different points of a connection ----
 
